@@ -41,7 +41,8 @@ func paramStrings(params map[string]interface{}) []string {
 
 func stmtCase(text string, params map[string]interface{}, valid bool) []string {
 	flag := "-"
-	if valid {
+	// `a --1` and `a /*` open comments: pieces glued without whitespace may do that by accident
+	if valid && !strings.Contains(text, "--") && !strings.Contains(text, "/*") {
 		flag = "valid"
 	}
 	return []string{encStr(text), encParams(params), encLower(append([]string{text}, paramStrings(params)...)...), flag}
